@@ -3,21 +3,22 @@ package c03
 
 import (
 	"fmt"
+	"strings"
 	"testing"
 
+	"github.com/z7zmey/php-parser/pkg/ast"
 	"pgregory.net/rapid"
 
 	"verif/astx"
 	"verif/harness"
 	"verif/phpgen"
+	"verif/progs"
 	"verif/px"
 )
 
 func TestMain(m *testing.M) { harness.Main(m, "C03") }
 
-func optsFor(v px.Ver) phpgen.Options {
-	return phpgen.Options{PHP7: !v.IsPHP5(), Flexible: v.Flexible(), RandomCase: true, NoEmptyHeredoc73: true, NoBinaryPrefixSingle: true, NoLoneCR: true, NoPHP5Goto: true, NoPHP5NewChain: true, NoEncapsedVarDim: true, MaxDepth: 3}
-}
+func optsFor(v px.Ver) phpgen.Options { return progs.Options(v) }
 
 func meta(v px.Ver) map[string]string { return map[string]string{"version": v.String()} }
 
@@ -45,11 +46,156 @@ func TestGenerated(t *testing.T) {
 		if d := astx.Equal(r.Root, root, astx.WithTokens|astx.WithPositions); d != "" {
 			harness.Fail(rt, "tokens", src, meta(v), "[%s] parsed tokens/positions differ from the generator's (parsed vs model): %s\nsource: %q", v, d, src)
 		}
-		for k, n := range g.Feat {
-			harness.ClassN(k, n)
-		}
+		(&progs.Case{G: g, Root: root, Ver: v}).Report()
 		if g.Feat["operators-adjacent-unbracketed"] >= 2 || g.Feat["dangling-else-nearest"] > 0 || g.Feat["keyword-case"] > 0 || g.Feat["alt-syntax"] > 1 {
 			harness.NonTrivial(src, fmt.Sprintf("[%s] %q", v, src))
 		}
 	})
+}
+
+// php7Only: constructs PHP 5.6 does not have. Each must be accepted under every 7.x version and rejected under every 5.x version.
+var php7Only = []string{
+	"<?php $a = $b ?? $c;", "<?php $a = $b <=> $c;", "<?php function f(): int { return 1; }", "<?php $o = new class { };", "<?php use A\\{B, C};",
+	"<?php function g() { yield from $a; }", "<?php $f = fn($x) => $x + 1;", "<?php class A { public int $x; }", "<?php [$a, $b] = $c;", "<?php class A { public const X = 1; }",
+	"<?php try { } catch (A | B $e) { }", "<?php function f(?int $a) { }", "<?php $a ??= 1;", "<?php $a = [...$b];", "<?php function f(int ...$a): ?A { }",
+	"<?php foo(1, 2,);", "<?php list('k' => $a) = $b;", "<?php (function() { })();", "<?php $x = (clone $a)->b;",
+	"<?php function f(): void {} ", "<?php use function A\\{b, c};", "<?php static fn() => 1;", "<?php class A { function list() {} }", "<?php $a->class::X;",
+}
+
+func TestVersionGating(t *testing.T) {
+	if harness.Shard() != 0 {
+		t.Skip("shard 0 only")
+	}
+	for _, s := range php7Only {
+		src := []byte(s)
+		for _, v := range px.AllVersions {
+			r := px.Parse(src, v, true)
+			harness.Eval()
+			if r.Panic != "" {
+				continue
+			}
+			if v.IsPHP5() && len(r.Errs) == 0 {
+				harness.Failf(t, "php7-only-accepted-under-5", src, meta(v), "[%s] PHP 7-only syntax is accepted silently under a PHP 5 version: %q", v, s)
+			}
+			if !v.IsPHP5() && len(r.Errs) > 0 {
+				harness.Failf(t, "php7-construct-rejected", src, meta(v), "[%s] valid PHP 7 program rejected: %q: %s", v, s, px.ErrString(r.Errs))
+			}
+		}
+		harness.NonTrivial(src, "[version gating] "+s)
+		harness.Class("gating:php7-only")
+	}
+}
+
+// TestFlexibleHeredoc: a heredoc terminated only by a flexible (indented or
+// not newline-followed) closing label parses to the expected tree under 7.3
+// and 7.4 and is rejected under every earlier version.
+func TestFlexibleHeredoc(t *testing.T) {
+	harness.Check(t, "flexible-heredoc", 3000, 100000, func(rt *rapid.T) {
+		label := rapid.SampledFrom([]string{"EOT", "X", "_L1", "HTML"}).Draw(rt, "label")
+		nowdoc := rapid.Bool().Draw(rt, "nowdoc")
+		indent := rapid.SampledFrom([]string{"", "", "  ", "\t", " "}).Draw(rt, "indent")
+		follow := rapid.SampledFrom([]string{";\n", ", 1);\n", ");\n", " . 'x';\n", "; echo 2;\n", ";", " ;\n"}).Draw(rt, "follow")
+		lines := rapid.SliceOfN(rapid.SampledFrom([]string{"hello", "a b", "x" + label, label + "1 y", "", "é", "$", "  deeper"}), 1, 3).Draw(rt, "lines")
+		nl := rapid.SampledFrom([]string{"\n", "\r\n"}).Draw(rt, "nl")
+		open := "<<<" + label
+		if nowdoc {
+			open = "<<<'" + label + "'"
+		}
+		body := ""
+		for _, l := range lines {
+			body += indent + l + nl
+		}
+		call := "$a = "
+		if follow == ", 1);\n" || follow == ");\n" {
+			call = "foo("
+		}
+		src := []byte("<?php " + call + open + nl + body + indent + label + follow)
+		flexOnly := indent != "" || (follow != ";\n" && follow != ";")
+		if !flexOnly {
+			return
+		}
+		for _, v := range px.AllVersions {
+			r := px.Parse(src, v, true)
+			harness.Eval()
+			if r.Panic != "" {
+				continue
+			}
+			if v.Flexible() {
+				if len(r.Errs) > 0 {
+					harness.Fail(rt, "flexible-heredoc-rejected", src, meta(v), "[%s] heredoc with a flexible closing label rejected: %s\nsource: %q", v, px.ErrString(r.Errs), src)
+				}
+				var parts []string
+				astx.Walk(r.Root, func(n ast.Vertex, _ string) bool {
+					if h, ok := n.(*ast.ScalarHeredoc); ok {
+						for _, p := range h.Parts {
+							if sp, ok := p.(*ast.ScalarEncapsedStringPart); ok {
+								parts = append(parts, string(sp.Value))
+							}
+						}
+					}
+					return true
+				})
+				if got := strings.Join(parts, ""); !nowdoc && strings.Contains(body, "$") {
+					_ = got
+				} else if got != body+indent {
+					harness.Fail(rt, "flexible-heredoc-body", src, meta(v), "[%s] heredoc body is %q, expected %q\nsource: %q", v, got, body+indent, src)
+				}
+			} else if len(r.Errs) == 0 {
+				harness.Fail(rt, "flexible-heredoc-accepted-early", src, meta(v), "[%s] a heredoc that is terminated only by a flexible (>= 7.3) closing label is accepted silently\nsource: %q", v, src)
+			}
+		}
+		harness.NonTrivial(src, fmt.Sprintf("[flexible heredoc] %q", src))
+		harness.Class("gating:flexible-heredoc")
+	})
+}
+
+// known findings of this property: inputs that are valid PHP and must (still) be rejected or mis-parsed.
+var knownInputs = []struct {
+	id, src string
+	ver     px.Ver
+}{
+	{"binary-prefix-single-quote", "<?php echo b'x';", px.V74},
+	{"lone-cr-newline", "<?php echo 1;\recho 2;", px.V74},
+	{"lone-cr-newline", "<?php\recho 2;", px.V56},
+	{"empty-heredoc-73", "<?php <<<A\nA;\n", px.V74},
+	{"uppercase-number-prefix", "<?php echo 0X1F, 0B11;", px.V74},
+}
+
+func TestKnownFindings(t *testing.T) {
+	if harness.Shard() != 0 {
+		t.Skip("shard 0 only")
+	}
+	for _, k := range knownInputs {
+		r := px.Parse([]byte(k.src), k.ver, true)
+		harness.Eval()
+		if len(r.Errs) == 0 && r.Panic == "" {
+			harness.Note("finding %s no longer reproduces: %q now parses without errors under %s", k.id, k.src, k.ver)
+			continue
+		}
+		if !harness.KnownSeen(k.id) {
+			harness.Failf(t, "valid-rejected", []byte(k.src), meta(k.ver), "[%s] valid program rejected (not listed as an open finding): %q: %s", k.ver, k.src, px.ErrString(r.Errs))
+		}
+	}
+}
+
+func TestReplay(t *testing.T) {
+	path := harness.ReplayPath()
+	if path == "" {
+		t.Skip("no VERIF_REPLAY")
+	}
+	vi, src, err := harness.LoadReplay(path)
+	if err != nil {
+		t.Fatal(err)
+	}
+	for _, v := range px.AllVersions {
+		if vi.Meta["version"] != "" && vi.Meta["version"] != v.String() {
+			continue
+		}
+		r := px.Parse(src, v, true)
+		if r.Panic != "" || len(r.Errs) > 0 {
+			harness.Failf(t, vi.Check, src, meta(v), "[%s] the recorded program is (still) rejected: %s%s", v, r.Panic, px.ErrString(r.Errs))
+			return
+		}
+	}
+	t.Log("the recorded program parses without errors; tree comparisons replay through the rapid seed in the replay file")
 }
